@@ -198,6 +198,20 @@ def oracle_triple(fn, np, n, kp, kq, kr):
             return "H(%s)=%r for disjoint supports" % (name, h)
         if not dis and 1 - ref >= 1e-9 and not h < 1:
             return "H(%s)=%r although the supports overlap" % (name, h)
+    # one buffer object re-filled in place between calls (reading each distribution into the same array): the value is a
+    # function of the contents, never of the identity or the history of the array objects
+    for slot in (0, 1):
+        try:
+            with np.errstate(all="ignore"):
+                B = Q.copy()
+                _ = fn(B, R, n) if slot == 0 else fn(P, B, n)
+                B[:] = P if slot == 0 else R
+                v = float(fn(B, R, n) if slot == 0 else fn(P, B, n))
+        except Exception as e:  # noqa
+            return "raised %s when an argument array is re-filled in place and passed again" % type(e).__name__
+        if v.hex() != vals["pr"].hex():
+            return ("H(p,r)=%r when the %s argument is an array re-filled in place after an earlier call, %r when passed fresh arrays with the same contents"
+                    % (v, "first" if slot == 0 else "second", vals["pr"]))
     if abs(vals["pq"] - vals["qp"]) > TOL:
         return "not symmetric: H(p,q)=%r H(q,p)=%r" % (vals["pq"], vals["qp"])
     if vals["pr"] > vals["pq"] + vals["qr"] + TOL:
